@@ -179,17 +179,63 @@ theorem include_extends_in_spec (parent child : StrMap) : afterInclude true pare
     build, the steps their `build` statements add, each with its variables evaluated in the scope as
     of its own line - is a function of those statements alone; whatever is written after them
     (a re-binding of the same name included) only continues from that state. -/
-theorem top_down_at_file_level (file : Bytes) (a b : List Parse.Item) (l : Loader) (vars : StrMap) :
-    applyItems file (a ++ b) l vars =
-      match runItems file a l vars with
+theorem top_down_at_file_level (ie : Bool) (fs : Fs) (depth : Nat)
+    (sub : Loader → Bytes → Bytes → StrMap → Nat → Except LoadErr (Loader × StrMap))
+    (file : Bytes) (a b : List Parse.Item) (l : Loader) (vars : StrMap) :
+    applyItems ie fs depth sub file (a ++ b) l vars =
+      match runItems ie fs depth sub file a l vars with
       | .error e => .error e
-      | .ok (l', vars') => applyItems file b l' vars' :=
-  applyItems_append file a b l vars
+      | .ok (l', vars') => applyItems ie fs depth sub file b l' vars' :=
+  applyItems_append ie fs depth sub file a b l vars
 
 /-- A top-level binding is evaluated once, in the scope of the lines before it. -/
-theorem binding_evaluated_where_written (file : Bytes) (name : Bytes) (val : EvalStr) (rest : List Parse.Item)
-    (l : Loader) (vars : StrMap) :
-    runItems file (.binding name val :: rest) l vars =
-      runItems file rest l (Eval.insert vars name (evaluate [envOfStr vars] val)) := rfl
+theorem binding_evaluated_where_written (ie : Bool) (fs : Fs) (depth : Nat)
+    (sub : Loader → Bytes → Bytes → StrMap → Nat → Except LoadErr (Loader × StrMap))
+    (file : Bytes) (name : Bytes) (val : EvalStr) (rest : List Parse.Item) (l : Loader) (vars : StrMap) :
+    runItems ie fs depth sub file (.binding name val :: rest) l vars =
+      runItems ie fs depth sub file rest l (Eval.insert vars name (evaluate [envOfStr vars] val)) := rfl
+
+/-- **`subninja` has a private scope**: whatever the sub-file binds, the including file goes on
+    with the scope it had (the sub-file starts from a copy: `sub` receives `vars`). -/
+theorem subninja_scope_is_private (ie : Bool) (fs : Fs) (depth : Nat)
+    (sub : Loader → Bytes → Bytes → StrMap → Nat → Except LoadErr (Loader × StrMap))
+    (file : Bytes) (l l' : Loader) (vars vars' : StrMap) (p : EvalStr)
+    (h : applyItem ie fs depth sub file l vars (.stmt (.subninja p)) = .ok (l', vars')) : vars' = vars := by
+  simp only [applyItem] at h
+  split at h
+  · cases h
+  · split at h
+    · cases h
+    · split at h
+      · cases h
+      · split at h
+        · cases h
+        · injection h with h; injection h with _ h2; exact h2.symm
+
+/-- **`include` in n2 (finding F12, open)**: the including file also goes on with its OWN scope -
+    bindings made by the included file are lost; under Ninja's rule (`ie = true`, the executable
+    specification the C11 monitor compares with) it goes on with the scope the included file ended
+    with. -/
+theorem include_scope (ie : Bool) (fs : Fs) (depth : Nat)
+    (sub : Loader → Bytes → Bytes → StrMap → Nat → Except LoadErr (Loader × StrMap))
+    (file : Bytes) (l l' : Loader) (vars vars' : StrMap) (p : EvalStr)
+    (h : applyItem ie fs depth sub file l vars (.stmt (.include p)) = .ok (l', vars')) :
+    ∃ l1 name content child, sub l1 name content vars (depth + 1) = .ok (l', child) ∧
+      vars' = afterInclude ie vars child := by
+  simp only [applyItem] at h
+  split at h
+  · cases h
+  · rename_i l1 id _
+    split at h
+    · cases h
+    · rename_i content _
+      split at h
+      · cases h
+      · split at h
+        · cases h
+        · rename_i l2 child hs
+          injection h with h; injection h with h1 h2
+          subst h1
+          exact ⟨l1, _, content, child, hs, h2.symm⟩
 
 end N2V.C11
